@@ -23,26 +23,35 @@ PART = "20_arenamem"
 # ------------------------------------------------------------------ model runner (private copy)
 def get_model():
     """the shared runner may have been built without this property's part (work in progress of other
-    properties falls back to ocaml/stable.txt): make sure the command is there, keep a private copy"""
+    properties falls back to ocaml/stable.txt) or be broken by another part: make sure the command is
+    there, keep a private copy"""
     dst = os.path.join(build.scratch_root(), "verif-c19-runner.%d" % os.getpid())
-    for attempt in range(3):
-        m = vlib.build_model()
-        shutil.copy2(m, dst)
+
+    def probe():
         out, _ = vlib.run_lines(dst, ["arenamem 1 1 - -"])
-        if out and out[0].startswith("ok "):
-            return dst
-        st = getattr(vlib, "_stable", lambda: None)() or set()
+        return bool(out) and out[0].startswith("ok ")
+
+    def locked_build(parts):
         lock = vlib.coq_lock()
         try:
-            m = vlib._build_model_once(set(st) | {PART})
-            shutil.copy2(m, dst)
+            shutil.copy2(vlib._build_model_once(parts), dst)
         finally:
             fcntl.flock(lock, fcntl.LOCK_UN)
             lock.close()
-        out, _ = vlib.run_lines(dst, ["arenamem 1 1 - -"])
-        if out and out[0].startswith("ok "):
-            return dst
-    raise vlib.CoqError("model runner has no arenamem command: " + str(out[:1]))
+
+    last = None
+    st = getattr(vlib, "_stable", lambda: None)() or set()
+    for attempt in (None, set(st) | {PART}, {"00_arena", PART}):
+        try:
+            if attempt is None:
+                shutil.copy2(vlib.build_model(), dst)
+            else:
+                locked_build(attempt)
+            if probe():
+                return dst
+        except vlib.CoqError as e:
+            last = e
+    raise vlib.CoqError("cannot build a model runner with the arenamem command: " + str(last)[-800:])
 
 
 # ------------------------------------------------------------------ op sequences
@@ -227,7 +236,7 @@ def unit_correspondence(chk, model, variant, nseq):
             # the model: a ZERO_MEMORY allocation is served from spare capacity that was never zeroed (arena.c:153-160);
             # what the real arena returns is whatever malloc left there
             chk.add("model_undetermined_dirty_zero")
-            dirty.setdefault(ops, []).append((c, im.get("image"), im.get("mem")))
+            dirty.setdefault(ops, []).append((c, nb))
             if kind is None:
                 chk.violation("unit-corr", "generator produced a zeroed allocation after a plain write", rep, found_input=False)
             continue
@@ -271,7 +280,8 @@ def unit_correspondence(chk, model, variant, nseq):
             chk.violation("arena-zeroed-allocation-not-zeroed",
                           "yr_arena_allocate_zeroed_memory/yr_arena_allocate_struct returned non-zero memory (spare capacity left by a growth "
                           "for yr_arena_write_data is not zeroed): the same operations give different saved bytes at different initial capacities",
-                          {"variant": variant, "ops": ops, "capacities_where_model_says_indeterminate": [c for c, _, _ in runs],
+                          {"variant": variant, "ops": ops, "nb": runs[0][1], "capacity": runs[0][0],
+                           "capacities_where_model_says_indeterminate": [c for c, _ in runs],
                            "images_by_capacity": allimg[ops], "how": "echo 'arena <nb> <capacity> <ops>' | h_unit"}, found_input=True)
     for ops, s in images.items():
         if len(s) > 1 and ops not in dirty:
